@@ -44,13 +44,21 @@ func c10System(c *sim.Case) {
 		// half of the deployments are the built service binary (cmd/main.go) driven over gRPC, the others the same
 		// wiring assembled in process
 		binary := sim.ServiceBinary() != "" && sim.Bool(c, "binary")
-		// a third of the deployments have another OIDC filter configured BEFORE this one, on the other kind of store
-		// (so that the two share nothing) and with limits of its own: none, or an hour
+		// half of the deployments have another OIDC filter configured BEFORE this one, on the other kind of store
+		// (so that the two share nothing) and with limits of its own: none, an hour, or one second
 		o := sim.WorldOpts{Store: st, ViaServer: true, RealFactory: true, Binary: binary, Abs: abs, Idle: idle, CookiePrefix: fmt.Sprintf("w%d", wi)}
-		if sim.Weighted(c, "neighbour", 2, 1) == 1 {
+		if sim.Weighted(c, "neighbour", 1, 1) == 1 {
 			o.Neighbour = map[string]string{"memory": "redis", "redis": "memory"}[st]
-			if sim.Bool(c, "neighbour.hour") {
+			switch sim.Pick(c, "neighbour.limits", 3) {
+			case 1:
 				o.NeighbourAbs, o.NeighbourIdle = time.Hour, time.Hour
+			case 2:
+				o.NeighbourAbs, o.NeighbourIdle = time.Second, time.Second // shorter than any limit of the filter under test
+				if sim.Bool(c, "no-limits-of-its-own") {
+					// the filter under test sets no limit at all: its sessions must simply stay
+					abs, idle = 0, 0
+					o.Abs, o.Idle = 0, 0
+				}
 			}
 			c.Class("deployment:with-neighbour-filter")
 		}
